@@ -15,6 +15,8 @@ JChain(e) ==
   << R(p, "chain_executed", TRUE, e.r.ncalls >= Len(e.items), cls),
      R(p, "result_not_overwritten_by_later_calls", e.r.ncalls >= 1, Len(e.r.changed) = 0, cls),
      R(p, "result_repeatable_after_caller_appends", e.r.ncalls >= 1, Len(e.r.differs) = 0, cls),
+     \* eight goroutines making the same calls at the same time get the answers obtained alone
+     R(p, "results_same_under_concurrent_callers", e.r.ncalls >= 1 /\ "concurrent_bad" \in DOMAIN e.r, Len(e.r.concurrent_bad) = 0, cls),
      \* for structure serialisations: every first-round result is the parsed input again (C01 on the kept results), and the memory-separation reading (C08)
      R("C01", "kept_serialisation_is_the_consumed_input", e.kind = "ser", \A i \in 1..Len(e.items) : e.r.first[i].ok /\ e.r.first[i].out = e.items[i]["in"], cls),
      R("C08", "kept_serialisation_not_overwritten", e.kind = "ser" /\ e.r.ncalls >= 1, Len(e.r.changed) = 0 /\ Len(e.r.differs) = 0, cls) >>
